@@ -4,6 +4,12 @@
 // nil / typed-nil / valid / invalid inputs. Default and prefault arguments are distinct sentinel
 // values that do ("v") or do not ("i") satisfy the schema's own check, so the outcome class can be
 // read off the result.
+//
+// Wrapped cases (`wnil` / `wval` lines): after the modifier history the schema is wrapped in a chain of
+// up to three `.Transform(f_i)` / `.Pipe(target_i)` calls (core/transform.go: ZodTransform, ZodPipe;
+// reached by reflection on every type that offers the methods). f_i logs its argument and returns the
+// tagged value f_i(arg); target_i is a logging core.ZodType[any] that returns its input. The observation
+// is the result as a term over the base outcome plus the callback log.
 package main
 
 import (
@@ -303,6 +309,268 @@ func parse(s any, in reflect.Value) (res any, err error, pm string) {
 
 var anyT = reflect.TypeOf((*any)(nil)).Elem()
 
+// ---- wrappers ------------------------------------------------------------------------------
+
+type tagged struct {
+	I int
+	X any
+}
+
+type call struct {
+	pipe bool
+	id   int
+	arg  any
+}
+
+var calls []call
+
+// logTarget is the pipe target: a schema (core.ZodType[any]) that records what it is given and accepts it.
+type logTarget struct {
+	id int
+	in *core.ZodTypeInternals
+}
+
+func (t *logTarget) Parse(input any, _ ...*core.ParseContext) (any, error) {
+	calls = append(calls, call{true, t.id, input})
+	return input, nil
+}
+func (t *logTarget) MustParse(input any, _ ...*core.ParseContext) any { r, _ := t.Parse(input); return r }
+func (t *logTarget) Internals() *core.ZodTypeInternals                 { return t.in }
+func (t *logTarget) IsOptional() bool                                  { return false }
+func (t *logTarget) IsNilable() bool                                   { return false }
+
+var _ core.ZodType[any] = (*logTarget)(nil)
+
+// wrapSchema attaches the wrappers of stack (a word over T and P, innermost first) by reflection;
+// nil when the schema (or an intermediate wrapper) does not offer the method in the expected shape.
+func wrapSchema(s any, stack string) any {
+	cur := s
+	for i, w := range stack {
+		id := i + 1
+		rv := reflect.ValueOf(cur)
+		if w == 'T' {
+			m := rv.MethodByName("Transform")
+			if !m.IsValid() || m.Type().NumIn() != 1 {
+				return nil
+			}
+			pt := m.Type().In(0)
+			if pt.Kind() != reflect.Func || pt.NumIn() != 2 || pt.NumOut() != 2 || pt.Out(0) != anyT {
+				return nil
+			}
+			fn := reflect.MakeFunc(pt, func(a []reflect.Value) []reflect.Value {
+				var x any
+				if a[0].IsValid() && a[0].CanInterface() {
+					x = a[0].Interface()
+				}
+				calls = append(calls, call{false, id, x})
+				out := reflect.New(anyT).Elem()
+				out.Set(reflect.ValueOf(tagged{id, x}))
+				return []reflect.Value{out, reflect.Zero(pt.Out(1))}
+			})
+			cur = m.Call([]reflect.Value{fn})[0].Interface()
+		} else {
+			m := rv.MethodByName("Pipe")
+			if !m.IsValid() || m.Type().NumIn() != 1 || !reflect.TypeOf(&logTarget{}).AssignableTo(m.Type().In(0)) {
+				return nil
+			}
+			cur = m.Call([]reflect.Value{reflect.ValueOf(&logTarget{id: id, in: &core.ZodTypeInternals{Type: core.ZodTypeAny}})})[0].Interface()
+		}
+	}
+	return cur
+}
+
+// norm maps numbers to one representation (a Transform callback of Int8() receives an int64).
+func norm(v any) any {
+	rv := reflect.ValueOf(v)
+	switch rv.Kind() {
+	case reflect.Int, reflect.Int8, reflect.Int16, reflect.Int32, reflect.Int64:
+		return rv.Int()
+	case reflect.Uint, reflect.Uint8, reflect.Uint16, reflect.Uint32, reflect.Uint64:
+		return int64(rv.Uint())
+	case reflect.Float32, reflect.Float64:
+		return rv.Float()
+	}
+	return v
+}
+
+func same(a, b any) bool { return reflect.DeepEqual(norm(a), norm(b)) }
+
+// leaf names the innermost value of a term: which source of the history it came from, the nil payload
+// (nil, or the zero value a type's Transform wrapper derives from a nil pointer), or the validated input.
+func leaf(e *entry, h []string, v any, baseVal any, nonNil bool) string {
+	d := deref(v)
+	if nonNil {
+		if same(d, deref(baseVal)) {
+			return "in"
+		}
+		return fmt.Sprintf("other:%v", d)
+	}
+	names := []string{"default:value", "default:func", "prefault:value", "prefault:func"}
+	ops := []string{"Default:", "DefaultFunc:", "Prefault:", "PrefaultFunc:"}
+	for i := 0; i < 4; i++ {
+		set := false
+		for _, op := range h {
+			set = set || strings.HasPrefix(op, ops[i])
+		}
+		if set && (same(d, e.valid[i]) || same(d, e.invalid[i])) {
+			return names[i]
+		}
+	}
+	if d == nil || isNilResult(d) || reflect.ValueOf(d).IsZero() {
+		return "nil"
+	}
+	return fmt.Sprintf("other:%v", d)
+}
+
+func term(e *entry, h []string, v any, baseVal any, nonNil bool) string {
+	if t, ok := v.(tagged); ok {
+		return fmt.Sprintf("f%d(%s)", t.I, term(e, h, t.X, baseVal, nonNil))
+	}
+	if t, ok := deref(v).(tagged); ok {
+		return fmt.Sprintf("f%d(%s)", t.I, term(e, h, t.X, baseVal, nonNil))
+	}
+	return strings.ReplaceAll(leaf(e, h, v, baseVal, nonNil), " ", "_")
+}
+
+func errClass(err error) string {
+	var ze *gozod.ZodError
+	if !errors.As(err, &ze) || len(ze.Issues) == 0 {
+		return "err:notzod"
+	}
+	is := ze.Issues[0]
+	switch is.Code {
+	case core.InvalidType:
+		if is.Expected == "nonoptional" {
+			return "err:nonoptional"
+		}
+		return "err:type"
+	case core.Custom:
+		if strings.HasPrefix(is.Message, "Invalid input: expected") {
+			return "err:type"
+		}
+		return "err:custom"
+	default:
+		return "err:checks"
+	}
+}
+
+// observe runs one Parse of a wrapped schema and renders "<result> log=<callback log>".
+func observe(e *entry, h []string, ws any, in reflect.Value, baseVal any, nonNil bool) string {
+	calls = nil
+	res, err, pm := parse(ws, in)
+	if pm != "" {
+		return "panic " + pm
+	}
+	var r string
+	switch {
+	case err != nil && nonNil:
+		r = "err"
+	case err != nil:
+		r = errClass(err)
+	default:
+		r = "ok:" + term(e, h, res, baseVal, nonNil)
+	}
+	lg := "-"
+	if len(calls) > 0 {
+		parts := make([]string, len(calls))
+		for i, c := range calls {
+			k := "f"
+			if c.pipe {
+				k = "p"
+			}
+			parts[i] = fmt.Sprintf("%s%d(%s)", k, c.id, term(e, h, c.arg, baseVal, nonNil))
+		}
+		lg = strings.Join(parts, ";")
+	}
+	return r + " log=" + lg
+}
+
+var allStacks = func() (out []string) {
+	for n := 1; n <= 3; n++ {
+		var rec func(p string)
+		rec = func(p string) {
+			if len(p) == n {
+				out = append(out, p)
+				return
+			}
+			rec(p + "T")
+			rec(p + "P")
+		}
+		rec("")
+	}
+	return
+}()
+
+// stacksFor: which wrapper chains a history is run under. Exhaustive part: histories of length <= 1 get every
+// chain of length <= 3, length-2 histories every chain of length <= 2 (thorough: every history every chain);
+// random histories get two random chains.
+func stacksFor(r *hx.Rng, h []string, exhaustive, thorough bool) []string {
+	switch {
+	case thorough && exhaustive, len(h) <= 1:
+		return allStacks
+	case exhaustive:
+		return allStacks[:6]
+	case thorough:
+		return []string{hx.Pick(r, allStacks), hx.Pick(r, allStacks), hx.Pick(r, allStacks), hx.Pick(r, allStacks)}
+	}
+	return []string{hx.Pick(r, allStacks), hx.Pick(r, allStacks)}
+}
+
+func runWrapped(o *hx.Out, e *entry, h []string, stack string) {
+	var s, ws, wbase any
+	pm := hx.Safely(func() {
+		s = e.mk()
+		for _, op := range h {
+			if s = applyOp(e, s, op); s == nil {
+				return
+			}
+		}
+		ws = wrapSchema(s, stack)
+		wbase = wrapSchema(e.mk(), stack)
+	})
+	hs := strings.Join(h, " ")
+	adm := hx.B01(e.admitsNil) + " " + hx.B01(e.name == "du" || e.name == "lazy")
+	if pm != "" {
+		o.Emit(fmt.Sprintf("c03 wnil %s %s %s %s #%s build", e.rule, adm, stack, hs, e.name), "panic "+pm)
+		return
+	}
+	if s == nil || ws == nil || wbase == nil {
+		return // not applicable to this type
+	}
+	inputs := []struct {
+		tag string
+		v   reflect.Value
+	}{{"nil", reflect.Zero(anyT)}}
+	if e.okIn != nil {
+		inputs = append(inputs, struct {
+			tag string
+			v   reflect.Value
+		}{"nilptr", reflect.Zero(reflect.PointerTo(reflect.TypeOf(e.okIn)))})
+	}
+	for _, in := range inputs {
+		obs := observe(e, h, ws, in.v, nil, false)
+		o.Emit(fmt.Sprintf("c03 wnil %s %s %s %s #%s in=%s", e.rule, adm, stack, hs, e.name, in.tag), obs)
+		o.Count("type:" + e.name)
+		o.Count("stack:" + stack)
+		o.Count("wrapped-outcome:" + strings.SplitN(strings.SplitN(obs, " ", 2)[0], "(", 2)[0])
+	}
+	bare := e.mk()
+	for k, in := range []any{e.okIn, e.badIn} {
+		if in == nil {
+			continue
+		}
+		bv, _, _ := parse(bare, reflect.ValueOf(in))
+		o1 := observe(e, h, ws, reflect.ValueOf(in), bv, true)
+		o2 := observe(e, h, wbase, reflect.ValueOf(in), bv, true)
+		obs := o1 + " base=same"
+		if o1 != o2 {
+			obs = o1 + " base=" + strings.ReplaceAll(o2, " ", "_")
+		}
+		o.Emit(fmt.Sprintf("c03 wval %s %s %s #%s in=%v", stack, []string{"ok", "bad"}[k], hs, e.name, in), obs)
+		o.Count("wrapped-nonnil:" + strings.SplitN(obs, ":", 2)[0])
+	}
+}
+
 func main() {
 	c := hx.ParseFlags()
 	o, err := hx.NewOut(c.OutDir)
@@ -333,6 +601,7 @@ func main() {
 		}
 	}
 	rec(nil, exLen)
+	nExhaustive := len(hist)
 	nRandom := 1500
 	if c.Thorough() {
 		nRandom = 20000
@@ -347,17 +616,22 @@ func main() {
 	}
 	for ei := range es {
 		e := &es[ei]
-		for _, h := range hist {
-			runHistory(o, e, h)
+		for hi, h := range hist {
+			if !runHistory(o, e, h) {
+				continue
+			}
+			for _, st := range stacksFor(r, h, hi < nExhaustive, c.Thorough()) {
+				runWrapped(o, e, h, st)
+			}
 		}
 	}
-	if err := o.Close(map[string]any{"seed": c.Seed, "tier": c.Tier, "types": len(es), "histories": len(hist)}); err != nil {
+	if err := o.Close(map[string]any{"seed": c.Seed, "tier": c.Tier, "types": len(es), "histories": len(hist), "stacks": len(allStacks)}); err != nil {
 		fmt.Fprintln(os.Stderr, err)
 		os.Exit(3)
 	}
 }
 
-func runHistory(o *hx.Out, e *entry, h []string) {
+func runHistory(o *hx.Out, e *entry, h []string) bool {
 	if e.only != nil {
 		for _, op := range h {
 			ok := false
@@ -365,7 +639,7 @@ func runHistory(o *hx.Out, e *entry, h []string) {
 				ok = ok || a == op
 			}
 			if !ok {
-				return
+				return false
 			}
 		}
 	}
@@ -381,10 +655,10 @@ func runHistory(o *hx.Out, e *entry, h []string) {
 	})
 	if pm != "" {
 		o.Emit(fmt.Sprintf("c03 nil %s %s 0 %s #%s build", e.rule, hx.B01(e.admitsNil), strings.Join(h, " "), e.name), "panic "+pm)
-		return
+		return false
 	}
 	if s == nil {
-		return // the type has no such method: history not applicable
+		return false // the type has no such method: history not applicable
 	}
 	adm := hx.B01(e.admitsNil) + " " + hx.B01(e.name == "du" || e.name == "lazy")
 	// nil and typed-nil inputs
@@ -428,4 +702,5 @@ func runHistory(o *hx.Out, e *entry, h []string) {
 		o.Emit(fmt.Sprintf("c03 val %s #%s in=%v", strings.Join(h, " "), e.name, in), obs)
 		o.Count("nonnil:" + strings.SplitN(obs, " ", 2)[0])
 	}
+	return true
 }
